@@ -146,7 +146,7 @@ func VerifC11IngestHavoc() {
 	verifnd.Sequential()
 	vals := make([]int, len(verifHavocDims))
 	// bound: every combination of deviations from the base message in at most two dimensions (thorough:
-	// three, for the pairs within the first four dimensions); each unordered combination once
+	// three, for the pairs among transport, parameters and library version); each unordered combination once
 	nd := len(verifHavocDims)
 	var pairs [][2]int
 	for i := 0; i <= nd; i++ {
@@ -157,10 +157,10 @@ func VerifC11IngestHavoc() {
 	pairs = append(pairs, [2]int{nd, nd})
 	pr := pairs[verifnd.Choose("deviating-dimensions", len(pairs))] // sharded
 	dims := []int{pr[0], pr[1]}
-	if verifnd.Thorough() && pr[1] < 4 {
-		// thorough: a third deviating dimension for the pairs within the first four dimensions
-		// (secret, transport, parameters, library version / families); every triple did not
-		// finish within the 40-minute budget per shard
+	if verifnd.Thorough() && pr[0] >= 1 && pr[1] < 4 {
+		// thorough: a third deviating dimension for the pairs among transport, parameters and library version
+		// (with the secret length as well, one shard - 46 000 paths - and with every triple most
+		// shards did not finish within the 40-minute budget)
 		dims = append(dims, pr[1]+1+verifnd.Choose("third-dimension", nd-pr[1]))
 	}
 	for _, i := range dims {
